@@ -113,6 +113,8 @@ def run(ctx):
         spec = Spec3(v1, v2, ctx.tier)
         r = explore.bfs(ctx, spec, max_depth=30, label="2rx_v%dv%d" % (v1, v2))
         allout |= {(spec.name,) + o for o in r["outcomes"]}
+    from vlib.props import c03_sched
+    c03_sched.run(ctx, family="drop")
     c = ctx.cov
     c["exhaustive"] = all(r["frontier_exhausted"] for r in c["runs"])
     c["distinct_outcomes"] = len(allout)
@@ -123,6 +125,9 @@ def run(ctx):
 
 
 def replay(ctx, case):
+    if case.get("sched"):
+        from vlib.props import c03_sched
+        return c03_sched.replay(ctx, case)
     if case["spec"].startswith("C18/2rx/"):
         v1, v2 = int(case["spec"][9]), int(case["spec"][12])
         spec = Spec3(v1, v2, "thorough")
